@@ -106,6 +106,7 @@ class Exec(HeapMixin, ExprMixin, CallMixin, StmtMixin):
         self.spec_globals = {}
         self.assumptions_used = set()
         self.callee_used = set()
+        self.fresh_acc = {}
         self.cur = None              # contract under verification
         self.view = None
         self.cur_fi = None
